@@ -150,7 +150,7 @@ def run_job(job: Job, prop: str, keep_dir=False) -> JobResult:
 def goto_cc_cmd(job, hdir, out, native=False):
     defs = " ".join(f"-D{k}={v}" if v != "" else f"-D{k}" for k, v in job.defs.items())
     units = " ".join(q(os.path.join(REPO, u)) for u in job.units)
-    return (f"goto-cc -DCHIBICC_VERIF -DVERIF_REPO_DIR={q(REPO)} -I{q(os.path.join(VERIF, 'spec'))} -I{q(REPO)} -I{q(hdir)} {defs} "
+    return (f"goto-cc -DCHIBICC_VERIF -D__NO_CTYPE -DVERIF_REPO_DIR={q(REPO)} -I{q(os.path.join(VERIF, 'spec'))} -I{q(REPO)} -I{q(hdir)} {defs} "
             f"--function harness {q(os.path.join(hdir, job.src))} {units} -o {out}")
 
 
@@ -338,10 +338,20 @@ def native_replay(job: Job, prop: str, inputs: Dict[str, str], outdir: str, tag:
             for k, v in inputs.items():
                 f.write(f"{k}={v}\n")
         defs = " ".join(f"-D{k}={v}" if v != "" else f"-D{k}" for k, v in job.defs.items())
-        units = " ".join(q(os.path.join(REPO, u)) for u in job.units)
+        # natively every translation unit of the repository is linked (except main.c and the unit(s) the harness
+        # #includes textually); main.c's few globals come from spec/native_stubs.c as weak symbols
+        src = open(os.path.join(hdir, job.src)).read()
+        included = set(re.findall(r'#include "(\w+\.c)"', src))
+        for hname in re.findall(r'#include "(\w+\.h)"', src):
+            hp = os.path.join(VERIF, "spec", hname)
+            if os.path.exists(hp):
+                included |= set(re.findall(r'#include "(\w+\.c)"', open(hp).read()))
+        allu = sorted(f for f in os.listdir(REPO) if f.endswith(".c") and f != "main.c" and f not in included)
+        units = " ".join(q(os.path.join(REPO, u)) for u in allu)
         exe = os.path.join(wd, "replay.exe")
-        cmd = (f"gcc -std=gnu11 -w -O0 -DVERIF_NATIVE -DCHIBICC_VERIF -DVERIF_REPO_DIR={q(REPO)} -I{q(os.path.join(VERIF, 'spec'))} -I{q(REPO)} -I{q(hdir)} {defs} "
-               f"{q(os.path.join(hdir, job.src))} {units} {q(os.path.join(VERIF, 'spec', 'native_stubs.c'))} -o {exe} -lm")
+        cmd = (f"gcc -std=gnu11 -w -O0 -c -DVERIF_NATIVE -DCHIBICC_VERIF -DVERIF_REPO_DIR={q(REPO)} -I{q(os.path.join(VERIF, 'spec'))} -I{q(REPO)} -I{q(hdir)} {defs} "
+               f"{q(os.path.join(hdir, job.src))} -o {wd}/harness.o && "
+               f"gcc -std=gnu11 -w -O0 {wd}/harness.o {units} {q(os.path.join(VERIF, 'spec', 'native_stubs.c'))} -o {exe} -lm")
         rc, out = sh(cmd, cwd=wd, timeout=120, mem_kb=0)
         if rc != 0:
             return dict(kind="native", built=False, reproduced=False, output=out[-2000:], cmd=cmd)
